@@ -1,6 +1,6 @@
 """C04 class level: n_threads / coo_initial_memory / transform on other data give the reference matrix."""
-from harness import cls_cooc
+from harness import cls_cooc, cls_cooc_family
 
 
 def cases(tier):
-    return cls_cooc.cases(tier, props=("C02",), which="threads")
+    return cls_cooc.cases(tier, props=("C02",), which="threads") + [c for c in cls_cooc_family.cases(tier) if "alt=" in c.name]
